@@ -572,6 +572,16 @@ def run_shard(spec, ctx):
                         run_require(ctx, U, s_, lp, hostile, form='paren', home=os.path.join(U, 'home'),
                                     maindir='home/.lexaloffle/pico-8/carts/game')
                     ctx.feature('main_file_inside_carts_folder_project')
+                # a cart in a directory whose name has capitals, a lower-case twin of that directory next to it, a file only the twin has
+                only = os.path.join(U, 'root', 'sub', 'only_in_lower_case_twin.lua')
+                with open(only, 'wb') as fh:
+                    fh.write(b'marker("root/sub/only_in_lower_case_twin.lua")\n')
+                try:
+                    for s_ in ('only_in_lower_case_twin', 'sub/only_in_lower_case_twin'):
+                        run_include(ctx, U, s_, '.lua', 'dir:ROOT/sub' if '/' not in s_ else 'dir:ROOT', hostile)
+                finally:
+                    os.remove(only)
+                ctx.feature('file_only_in_lower_case_twin_directory')
             ctx.feature('names_done')
             return
         if spec['kind'] == 'absolute':
@@ -583,6 +593,13 @@ def run_shard(spec, ctx):
                     for lp in LOAD_PATHS:
                         run_require(ctx, U, ap, lp, hostile)
                         run_require(ctx, U, ap + '.lua', lp, hostile)
+                # the same path (and a relative escape) with blanks around it: a string is what it is, blanks included
+                for hostile in (False, True):
+                    for sp in (' ' + ap, ap + ' ', '\t' + ap, ' ' + ap + '.lua', ' ../' + target, '../' + target + ' ', ' /' + ap.lstrip('/')):
+                        for lp in LOAD_PATHS:
+                            run_require(ctx, U, sp, lp, hostile, form='paren')
+                        run_include(ctx, U, sp.strip() + ' ', '.lua', 'plain', hostile)
+                    ctx.feature('strings_with_blanks_around_a_path')
                 # module-style dotted spellings of the same absolute path (".tmp.x.outside.x")
                 dotted = ap.replace('/', '.')
                 for hostile in (False, True):
@@ -644,7 +661,7 @@ def gates(m, tier):
     N = 3 if tier == 'quick' else 4
     if f.get('strings_enumerated', 0) != len(strings(N)):
         missed.append('strings enumerated %d of %d' % (f.get('strings_enumerated', 0), len(strings(N))))
-    for k in ('cart_loaded_from_stream_without_name', 'cart_under_cwd_relative_carts_folder', 'strings_with_tilde', 'nested_require_from_subdirectory', 'main_named_bare', 'main_named_relative', 'cart_named_bare', 'cart_named_relative', 'links_done', 'strings_through_directory_links', 'strings_with_backslash_separators', 'strings_with_undecodable_bytes', 'sequences_done', 'failed_load_before_case', 'failed_build_before_case', 'include_cfg:subdir', 'absolute_paths_done', 'names_done', 'cart_directories_with_special_characters', 'carts_folder_lookalikes', 'main_file_inside_carts_folder_project', 'strings_with_backslash_digit_values', 'require_scenario:ancestor_pattern', 'require_scenario:ancestor_pattern_two', 'require_scenario:package_outside_project', 'hostile', 'real_fs', 'include_cfg:plain', 'include_cfg:carts', 'include_cfg:carts2', 'include_rejected',
+    for k in ('cart_loaded_from_stream_without_name', 'cart_under_cwd_relative_carts_folder', 'strings_with_tilde', 'nested_require_from_subdirectory', 'main_named_bare', 'main_named_relative', 'cart_named_bare', 'cart_named_relative', 'links_done', 'strings_through_directory_links', 'strings_with_backslash_separators', 'strings_with_undecodable_bytes', 'sequences_done', 'failed_load_before_case', 'failed_build_before_case', 'include_cfg:subdir', 'absolute_paths_done', 'names_done', 'cart_directories_with_special_characters', 'carts_folder_lookalikes', 'main_file_inside_carts_folder_project', 'strings_with_backslash_digit_values', 'strings_with_blanks_around_a_path', 'file_only_in_lower_case_twin_directory', 'require_scenario:ancestor_pattern', 'require_scenario:ancestor_pattern_two', 'require_scenario:package_outside_project', 'hostile', 'real_fs', 'include_cfg:plain', 'include_cfg:carts', 'include_cfg:carts2', 'include_rejected',
               'include_loaded', 'require_rejected', 'require_built') + tuple('load_path:' + l for l in LOAD_PATHS):
         if f.get(k, 0) < 1:
             missed.append('%s never seen' % k)
